@@ -74,6 +74,16 @@ package influxql
 //@ func (DurationValue).Value
 //@   props C07
 //@   ensures result == string(v)
+// numbers are rendered with the shortest text that parses back to the same value
+//@ func (NumberValue).Value
+//@   props C07
+//@   ensures result == libcall("strconv.FormatFloat", float64(v), 'f', 0-1, 64)
+//@ func (IntegerValue).Value
+//@   props C07
+//@   ensures result == libcall("strconv.FormatInt", int64(v), 10)
+//@ func (BooleanValue).Value
+//@   props C07
+//@   ensures result == ""
 
 // Parser.scan: substitution happens here, as a function of the raw token only.
 //@ func (*Parser).scan
